@@ -93,7 +93,7 @@ func envOpts(env int, v uint32) []ref.Opt {
 }
 
 func TestRun(t *testing.T) {
-	rec := vr.New("C20", "exhaustive: 32 No-Response values x 256 response codes (+ PRNG 32-bit values x 256 codes) on IsNoResponseCode and ResponseWriter.SetResponse; wire: every (value 0..31 plus PRNG values 32..255, code 0..255) x {CON,NON} on a real udp connection and on a real tcp connection, emitted datagrams/frames inspected; every request in one of 6 option environments (No-Response alone, with lower options, with options numbered above 258 such as 2049/2053/65000, behind many lower options); the library's own 4.04 generators (mux router default handler, default handlers of the udp/dtls/tcp client and server configurations) for every value. Distinct = (kind,value,code[,type]) visited once by construction.")
+	rec := vr.New("C20", "exhaustive: 32 No-Response values x 256 response codes (+ PRNG 32-bit values x 256 codes) on IsNoResponseCode and ResponseWriter.SetResponse; wire: every (value 0..31 plus PRNG values 32..255, code 0..255) x {CON,NON} x request methods GET/POST/PUT/DELETE/FETCH/PATCH/iPATCH on a real udp connection and on a real tcp connection, emitted datagrams/frames inspected; every request in one of 6 option environments (No-Response alone, with lower options, with options numbered above 258 such as 2049/2053/65000, behind many lower options); the library's own 4.04 generators (mux router default handler, default handlers of the udp/dtls/tcp client and server configurations) for every value. Distinct = (kind,value,code[,type]) visited once by construction.")
 	defer rec.Flush(true)
 	seed := vr.Seed()
 	rnd := rand.New(rand.NewSource(seed))
@@ -185,6 +185,10 @@ func TestRun(t *testing.T) {
 	rec.Assume("the class rule (code>>5 in {2,4,5} against bits 2/8/16) is a faithful reading of RFC 7967 section 2.1")
 }
 
+// reqMethod: the request method rotates over all seven methods (RFC 7252 GET/POST/PUT/DELETE and RFC 8132
+// FETCH/PATCH/iPATCH): No-Response is a property of the request, whatever its method.
+func reqMethod(i int) uint8 { return []uint8{2, 5, 3, 6, 4, 7, 1}[i%7] }
+
 func filter(cs []e2eCase, tr string) []e2eCase {
 	var out []e2eCase
 	for _, c := range cs {
@@ -243,7 +247,7 @@ func runUDP(rec *vr.Rec, cases []e2eCase) {
 			if c.Con {
 				typ = 0
 			}
-			m := ref.Msg{Type: typ, Code: 2, MID: uint16(i + 1), Token: tokenOf(i),
+			m := ref.Msg{Type: typ, Code: reqMethod(i), MID: uint16(i + 1), Token: tokenOf(i),
 				Opts: envOpts(c.Env, c.V), Payload: []byte{c.Code}}
 			if err := cc.Process(nil, ref.EncodeUDP(m)); err != nil {
 				rec.Violation("C20/harness/process-error", err.Error(), c)
@@ -372,7 +376,7 @@ func runTCP(rec *vr.Rec, cases []e2eCase) {
 		}
 		var stream []byte
 		for i, c := range part {
-			m := ref.Msg{Code: 2, Token: tokenOf(i), Opts: envOpts(c.Env, c.V), Payload: []byte{c.Code}}
+			m := ref.Msg{Code: reqMethod(i), Token: tokenOf(i), Opts: envOpts(c.Env, c.V), Payload: []byte{c.Code}}
 			stream = append(stream, ref.EncodeTCP(m)...)
 		}
 		stream = append(stream, ref.EncodeTCP(ref.Msg{Code: 1, Token: []byte{0x7f, 1, 2, 3}, Payload: []byte{0x45}})...)
